@@ -209,7 +209,7 @@ def is_mutable(x):
 class C09(Check):
     ID = 'C09'
     LEVEL = 'exploration'
-    BUDGET = {'quick': 30, 'thorough': 240}
+    BUDGET = {'quick': 75, 'thorough': 240}
     RULE = ('case = (variant, context, input). Variants: 15 accumulator/seed combinations (one whose accumulator returns None for some prefixes, two whose seed VALUE nests a mutable container inside a tuple / dict, two whose seed is a hashable-but-mutable user object) (immutable int/float/tuple folds; list building by copy and by in-place append; in-place dict and array; '
             'seeds given as values - incl. a non-empty mutable value - and as factories) x reduce on/off x terminators (pure and in-place) - and the 21 operators defined through scan '
             '(count, sum, mean, min, max, variance with reduce on/off, to_list, to_array, batch, distinct_until_changed, progress, dist.update). Contexts: plain observable, one multiplexed key, '
@@ -234,7 +234,7 @@ class C09(Check):
             node = CONTEXTS[ctx](rng) if CONTEXTS[ctx] else None
             ln = rng.choice([0, 1, 2, 5, 12, 30])
             items = [rng.randint(0, 9) for _ in range(ln)]
-            if k % 450 == 225:
+            if k % 450 == 15:
                 # scale: lifetimes of more than 1024 items, batch sizes beyond the small-int cache, values beyond 2**31
                 ctx = ['plain', 'mux', 'group', 'roll_eq'][(k // 450) % 4]
                 node = {'plain': None, 'mux': None, 'group': ['group_by', 'mod:2', None], 'roll_eq': ['roll', 1100, 1100, None]}[ctx]
